@@ -269,6 +269,20 @@ def check_library_graphs(ctx, case):
             mat = step(dsw.accessor_to_adjacency_matrix, valid)
             if mat is not None:
                 step(dsw.adjacency_matrix_to_accessor, mat)
+                m0 = np.asarray(mat)
+                # the same 0/1 matrix in the element types matrices are stored in (int8 / uint8 / bool files, float from loadtxt)
+                for dt in ctx.rng.sample(["int8", "uint8", "bool", "int16", "float64", "int32"], 2):
+                    step(dsw.adjacency_matrix_to_accessor, m0.astype(dt))
+                    ctx.cls("library-graphs|matrix as " + dt)
+                # a matrix with one cell outside the shift structure: whatever comes back (if anything) is still a shift graph
+                n_v = len(m0)
+                for _i in range(3):
+                    u, w = ctx.rng.randrange(n_v), ctx.rng.randrange(n_v)
+                    if w not in G.succs(u, k):
+                        bad = m0.copy()
+                        bad[u, w] = 1
+                        step(dsw.adjacency_matrix_to_accessor, bad)
+                        ctx.cls("library-graphs|matrix with a cell outside the shift structure")
         if coding is not None and k <= 3:
             a, m = coding.copy(), step(dsw.accessor_to_latter_map, coding)
             for _ in range(3):
@@ -329,6 +343,10 @@ def floors(agg, tier):
         out.append("result-scrambling repeats: %d < 1000" % c.get("repeated after the result was scrambled", 0))
     if c.get("complete|k=5 verbose", 0) < 1 or c.get("complete|k=6 verbose", 0) < 1:
         out.append("complete accessor with progress output at orders 5 and 6 not exercised")
+    for name, need in (("library-graphs|matrix as int8", 100), ("library-graphs|matrix as float64", 100),
+                       ("library-graphs|matrix with a cell outside the shift structure", 500)):
+        if c.get(name, 0) < need:
+            out.append("%s observed %d < %d" % (name, c.get(name, 0), need))
     if c.get("sampled|k=>12", 0) < 300:
         out.append("vertices of orders 13..40 sampled: %d < 300" % c.get("sampled|k=>12", 0))
     for typ in ("int64", "int32"):
